@@ -118,7 +118,7 @@ fn main() {
     let mut run = |rep: &mut Report, fams: &[RFamily], group: &str| {
         rep.evaluations += 1;
         rep.transitions += 6;
-        match catch(|| round_trip(fams)) {
+        match watchdog::case(|| format!("text round trip of {:?}", fams.iter().map(|f| f.key(true)).collect::<Vec<_>>()), || catch(|| round_trip(fams))) {
             Ok(Ok(text)) => {
                 rep.outcome(&text);
                 if rep.evaluations % 3001 == 1 {
